@@ -1,5 +1,7 @@
 import WacModel.Spec.Plug
 import WacProofs.Lemmas.Plug2
+import WacProofs.Lemmas.Plug3
+import WacProofs.Lemmas.Plug4
 /-
   C10 — plugging.
 
@@ -8,14 +10,13 @@ import WacProofs.Lemmas.Plug2
 
   Status of the theorems planned in DESIGN §7:
     proved here   matching_is_spec, plug_preserves_inv, two_offers_fail,
-                  idle_plug_not_instantiated, no_offer_no_plug (⇐ of `no_plug_iff`),
-                  expected_no_plugs
-    partial       plug_supplies_matches, unmatched_stay_imports, socket_exports_reexported and
-                  the ⇒ direction of no_plug_iff are not theorems yet: they are the clauses of the
-                  executable post-condition `plugPost` / `expected`, evaluated by the driver on
-                  the graph the *implementation* reports for every generated case (SPEC) and on
-                  the model (MODEL).  plug_encodes_valid needs the encoder model (C01–C03); the
-                  harness checks it per case with the wasmparser validator.
+                  idle_plug_not_instantiated, no_plug_iff (no_offer_no_plug, no_plug_no_offer),
+                  socket_exports_reexported, expected_no_plugs
+    partial       plug_supplies_matches and unmatched_stay_imports are not theorems yet: they are
+                  clauses (1) and (2) of the executable post-condition `plugPost`, evaluated by the
+                  driver on the graph the *implementation* reports for every generated case (SPEC)
+                  and on the model (MODEL).  plug_encodes_valid needs the encoder model (C01–C03);
+                  the harness checks it per case with the wasmparser validator.
 -/
 namespace Wac.Props.C10
 open Wac Wac.Graph
@@ -105,5 +106,172 @@ theorem no_offer_no_plug (ctx : Ctx) (g : Graph) (h : Inv ctx g) (plugs : List P
 
 example : (plug ctxP (run ctxP {} [.register socketP, .register idleP]).1 [⟨1, 0⟩] ⟨0, 0⟩).2 =
     .noPlugHappened := by decide
+
+/-- (`no_plug_iff`, ⇒) when `plug` reports `NoPlugHappened`, no plug offered anything: a loop
+    that passes at least one argument leaves an argument edge at the socket instantiation
+    (`plugAll_none`), a consistent graph then lists a non-empty argument list
+    (`args_nonempty_of_hasArg`), and none of the loops reports `NoPlugHappened` itself -/
+theorem no_plug_no_offer (ctx : Ctx) (g : Graph) (h : Inv ctx g) (plugs : List PkgId) (socket : PkgId)
+    (socketD : PkgDef) (hs : g.pkgOf socket = .ok socketD)
+    (hreg : ∀ p ∈ plugs, ∃ plugD, g.pkgOf p = .ok plugD)
+    (hres : (plug ctx g plugs socket).2 = .noPlugHappened) :
+    ∀ p ∈ plugs, ∃ plugD, g.pkgOf p = .ok plugD ∧ offers ctx socketD plugD = [] := by
+  unfold plug at hres
+  rw [hs] at hres
+  simp only at hres
+  have hi : instantiate g socket =
+      ((g.addNode ⟨.instantiation [], some socket, socketD.instKind, none, none⟩).1,
+       .ok (.node (g.addNode ⟨.instantiation [], some socket, socketD.instKind, none, none⟩).2)) := by
+    unfold instantiate
+    rw [hs]
+  have hinv1 : Inv ctx (g.addNode ⟨.instantiation [], some socket, socketD.instKind, none, none⟩).1 :=
+    inv_instantiate h hi
+  have hg1 := addNode_grows g ⟨.instantiation [], some socket, socketD.instKind, none, none⟩
+  rw [hi] at hres
+  simp only at hres
+  generalize (g.addNode ⟨.instantiation [], some socket, socketD.instKind, none, none⟩).1 = g1 at hres hinv1 hg1
+  generalize (g.addNode ⟨.instantiation [], some socket, socketD.instKind, none, none⟩).2 = si at hres
+  cases hpa : plugAll ctx si socketD plugs g1 with
+  | mk g2 o =>
+    rw [hpa] at hres
+    cases o with
+    | some o' =>
+      simp only at hres
+      have := plugAll_some si socketD plugs g1 g2 o' hpa
+      rw [hres] at this
+      cases this
+    | none =>
+      simp only at hres
+      have hinv2 : Inv ctx g2 := plugAll_inv si socketD plugs g1 g2 none hinv1 hpa
+      obtain ⟨_, hhas⟩ := plugAll_none si socketD plugs g1 g2 hpa
+      have hno : ¬ HasArg g2 si := by
+        intro ha
+        have hne := args_nonempty_of_hasArg hinv2 ha
+        cases hga : getInstantiationArguments g2 si with
+        | error s => rw [hga] at hres; cases hres
+        | ok l =>
+          cases l with
+          | nil => exact hne hga
+          | cons x r =>
+            rw [hga] at hres
+            simp only at hres
+            cases hex : exportSocket ctx si ((ctx.pkgExports socketD).map (·.1)) g2 with
+            | mk g3 o3 =>
+              rw [hex] at hres
+              cases o3 with
+              | none => cases hres
+              | some o'' =>
+                simp only at hres
+                have := exportSocket_some si _ g2 g3 o'' hex
+                rw [hres] at this
+                cases this
+      intro p hp
+      obtain ⟨plugD, hpd⟩ := hreg p hp
+      refine ⟨plugD, hpd, ?_⟩
+      have hnil : plugExports ctx plugD socketD = [] := by
+        cases hpe : plugExports ctx plugD socketD with
+        | nil => rfl
+        | cons x r =>
+          exfalso
+          apply hno
+          exact hhas ⟨p, hp, plugD, by rw [pkgOf_congr hg1.1]; exact hpd, by rw [hpe]; simp⟩
+      rw [plugExports_eq_offers] at hnil
+      exact List.map_eq_nil_iff.mp hnil
+
+/-- `no_plug_iff`: for registered plugs, `plug` reports that no plugging happened exactly when
+    no socket import could be supplied -/
+theorem no_plug_iff (ctx : Ctx) (g : Graph) (h : Inv ctx g) (plugs : List PkgId) (socket : PkgId)
+    (socketD : PkgDef) (hs : g.pkgOf socket = .ok socketD)
+    (hreg : ∀ p ∈ plugs, ∃ plugD, g.pkgOf p = .ok plugD) :
+    (plug ctx g plugs socket).2 = .noPlugHappened ↔
+      ∀ p ∈ plugs, ∃ plugD, g.pkgOf p = .ok plugD ∧ offers ctx socketD plugD = [] :=
+  ⟨no_plug_no_offer ctx g h plugs socket socketD hs hreg, no_offer_no_plug ctx g h plugs socket socketD hs⟩
+
+/-- `socket_exports_reexported`: after a successful `plug` there is a new instantiation `si` of
+    the socket package, and every export name of the socket is an entry of the export map whose
+    node is the target of the alias edge of that very export of `si` — the socket's exports
+    are exported under their own names -/
+theorem socket_exports_reexported (ctx : Ctx) (g : Graph) (h : Inv ctx g) (plugs : List PkgId) (socket : PkgId)
+    (socketD : PkgDef) (hs : g.pkgOf socket = .ok socketD) (hok : (plug ctx g plugs socket).2 = .ok) :
+    ∃ si nd, g.node? si = none ∧ (plug ctx g plugs socket).1.node? si = some nd ∧ nd.isInst = true ∧
+      nd.pkg = some socket ∧
+      ∀ nm ∈ (ctx.pkgExports socketD).map (·.1), ∃ a i k,
+        getExport (plug ctx g plugs socket).1 nm = some a ∧
+        alFull (ctx.pkgExports socketD) nm = some (i, k) ∧
+        (⟨si, a, .alias i⟩ : Edge) ∈ (plug ctx g plugs socket).1.edges := by
+  cases hres : plug ctx g plugs socket with
+  | mk g' out =>
+    rw [hres] at hok
+    simp only at hok ⊢
+    subst hok
+    unfold plug at hres
+    rw [hs] at hres
+    simp only at hres
+    have hi : instantiate g socket =
+        ((g.addNode ⟨.instantiation [], some socket, socketD.instKind, none, none⟩).1,
+         .ok (.node (g.addNode ⟨.instantiation [], some socket, socketD.instKind, none, none⟩).2)) := by
+      unfold instantiate
+      rw [hs]
+    have hinv1 : Inv ctx (g.addNode ⟨.instantiation [], some socket, socketD.instKind, none, none⟩).1 :=
+      inv_instantiate h hi
+    have a := added_of_addNode h ⟨.instantiation [], some socket, socketD.instKind, none, none⟩
+    rw [hi] at hres
+    simp only at hres
+    generalize (g.addNode ⟨.instantiation [], some socket, socketD.instKind, none, none⟩).1 = g1 at hres hinv1 a
+    generalize (g.addNode ⟨.instantiation [], some socket, socketD.instKind, none, none⟩).2 = si at hres a
+    cases hpa : plugAll ctx si socketD plugs g1 with
+    | mk g2 o =>
+      rw [hpa] at hres
+      cases o with
+      | some o' =>
+        simp only [Prod.mk.injEq] at hres
+        have := plugAll_some si socketD plugs g1 g2 o' hpa
+        rw [hres.2] at this
+        cases this
+      | none =>
+        simp only at hres
+        have hinv2 : Inv ctx g2 := plugAll_inv si socketD plugs g1 g2 none hinv1 hpa
+        have k12 := plugAll_keeps si socketD plugs g1 g2 none hinv1 hpa
+        cases hga : getInstantiationArguments g2 si with
+        | error s => rw [hga] at hres; simp at hres
+        | ok l =>
+          rw [hga] at hres
+          cases l with
+          | nil => simp at hres
+          | cons x r =>
+            simp only at hres
+            cases hex : exportSocket ctx si ((ctx.pkgExports socketD).map (·.1)) g2 with
+            | mk g3 o3 =>
+              rw [hex] at hres
+              cases o3 with
+              | some o'' =>
+                simp only [Prod.mk.injEq] at hres
+                have := exportSocket_some si _ g2 g3 o'' hex
+                rw [hres.2] at this
+                cases this
+              | none =>
+                simp only [Prod.mk.injEq, and_true] at hres
+                subst hres
+                obtain ⟨k23, hexp⟩ := exportSocket_spec si _ g2 g3 hinv2 hex
+                obtain ⟨x2, hx2, hitem2, hpkg2, hinst2⟩ := k12.nodes si _ a.new
+                obtain ⟨x3, hx3, hitem3, hpkg3, hinst3⟩ := k23.nodes si _ hx2
+                refine ⟨si, x3, a.fresh, hx3, ?_, ?_, ?_⟩
+                · rw [hinst3, hinst2]; rfl
+                · rw [hpkg3, hpkg2]
+                · intro nm hnm
+                  obtain ⟨a', nd2, exps, i, k, hnd2, hexps, hfull, hget, hedge⟩ := hexp nm hnm
+                  rw [hx2] at hnd2
+                  cases hnd2
+                  rw [hitem2] at hexps
+                  simp only at hexps
+                  have : ctx.pkgExports socketD = exps := by
+                    unfold Ctx.pkgExports
+                    rw [hexps]; rfl
+                  rw [this]
+                  exact ⟨a', i, k, hget, hfull, hedge⟩
+
+-- non-vacuity: a socket with an export
+example : getExport (plug ctxP (run ctxP {} [.register plugP, .register ⟨['t'], none, [(['a'], 0)], 2⟩]).1
+    [⟨0, 0⟩] ⟨1, 0⟩).1 ['a'] = some 3 := by decide
 
 end Wac.Props.C10
